@@ -168,5 +168,5 @@ void vf_replay(Ctx& ctx, const Case& c) { if (c.has("deep")) judge_deep(ctx, c, 
 
 void vf_end(Ctx& ctx) {
   ctx.count("gp_candidates_tried", g_gc.tries);
-  ctx.count("gp_candidates_rejected", g_gc.rejected); ctx.count("gp_flat_dense_scanline_scenes", g_gc.flat); ctx.count("gp_scenes_with_crossing_a_hair_past_a_scanline", g_gc.tie);
+  ctx.count("gp_candidates_rejected", g_gc.rejected); ctx.count("gp_flat_dense_scanline_scenes", g_gc.flat); ctx.count("gp_scenes_with_crossing_a_hair_past_a_scanline", g_gc.tie); ctx.count("gp_scenes_with_a_corner_whose_cross_product_is_an_exact_power_of_two", g_gc.wrap);
 }
